@@ -105,3 +105,8 @@ for _h, _band, _what in (
        "T.81 Figure G.7 Encode_AC_coefficients_SA (executable transcription spec_refinement): written bit fields, EOBRUN and buffered correction "
        "bits after the block equal the figure's; at EOBRUN 32767 the run is coded (EOB14 + 14 one-bits + every buffered bit) and reset, so "
        "0 <= EOBRUN <= 32766 between blocks. This band: " + _what + _SC_STUBS + _HF_STUBS, tier="thorough", timeout=1200)
+
+# promoted to the quick tier by the orchestrator: each guards a seeded defect class and runs in < 200 s
+for _o in OBLIGATIONS:
+    if _o["id"] in ['jb2.first_pass_eobrun']:
+        _o["tier"] = "quick"
